@@ -147,6 +147,11 @@ pub struct Monitor {
     pub cover: HashMap<&'static str, u64>,
     pub check_state_points: bool,
     pub claim: Option<&'static str>,
+    /// the property under check: violations of a few *other* properties whose monitors are pure
+    /// observers (nothing unsafe follows from going on) are noted and the execution continues,
+    /// so that they do not mask the property under check
+    pub focus: Option<String>,
+    pub foreign: Vec<(&'static str, &'static str)>,
     pub destructs: u64,
     pub last_destruct_epoch: Option<usize>,
     pub max_latency: usize,
@@ -211,6 +216,8 @@ impl Monitor {
             cover: HashMap::new(),
             check_state_points: true,
             claim: None,
+            focus: None,
+            foreign: Vec::new(),
             destructs: 0,
             last_destruct_epoch: None,
             max_latency: 0,
@@ -275,6 +282,14 @@ impl Monitor {
             Some(c) if c != prop => (c, format!("{} (a {} condition)", detail, prop)),
             _ => (prop, detail),
         };
+        if let Some(f) = &self.focus {
+            if f != prop && ["C13", "C14", "C15"].contains(&prop) {
+                if self.foreign.len() < 8 {
+                    self.foreign.push((prop, kind));
+                }
+                return;
+            }
+        }
         self.violation = Some(Violation {
             prop,
             kind,
